@@ -83,6 +83,14 @@ def check_bisc(case):
     SG_fn = _quiet(bisc, A_fn, m, n)
     if _norm(SG) != _norm(SG_dict) or _norm(SG) != _norm(SG_fn):
         return BAD("input_forms_differ", {"list": repr(_norm(SG)), "dict": repr(_norm(SG_dict)), "predicate": repr(_norm(SG_fn))})
+    # a list is a collection: its order (lengths interleaved, reversed, a tuple, an iterator-free copy) is immaterial
+    for name, variant in (
+        ("lexicographic_ignoring_length", sorted(A_list, key=tuple)),
+        ("reversed", list(reversed(A_list))),
+        ("by_last_entries", sorted(A_list, key=lambda P: tuple(reversed(P)))),
+    ):
+        if _norm(_quiet(bisc, list(variant), m, n)) != _norm(SG):
+            return BAD("list_order_changes_output", {"order": name, "list": [list(P) for P in variant]})
     patts = _sg_patterns(SG)
     if any(len(p) > m for p, _ in patts):
         return BAD("pattern_longer_than_m", {"patterns": [(list(p), sorted(s)) for p, s in patts]})
